@@ -123,6 +123,12 @@ def path_to_sid(path: str | os.Pathlike[str], config: Optional[str]) -> Sid | No
 
     new_sid = Sid(from_factory=True)
     new_sid._init(string=resolved_sid, type=_type, fields=fields)
+
+    # the path must be the one of the Sid (the path regex is more lenient than the path format)
+    if str(new_sid.path(config)) != str(path).replace(os.sep, "/"):
+        info(f'Path "{path}" resolves to {new_sid}, which has a different path. Path is not conform.')
+        return None
+
     return new_sid
 
 
